@@ -18,24 +18,43 @@ def vc_asmatrix(H):
     basis-pair table M_I M_J = signs[I,J] M_{I^J} -- bounded stand-in -- and bilinearity (C02) it is a homomorphism);
     frommatrix reads column 0 as the full coefficient list."""
     fuc = H.fn(MV, 'MultiVector.asmatrix')
+    canon = [0, 1, 2, 4, 3, 5, 6, 7]           # canonical key order of a 3-generator default basis (grade, then name)
+    for keys in ([6, 0, 4], list(range(8)), list(canon), []):
+        def body(ctx, keys=keys):
+            vals = [sym(f'v{i}') for i in range(len(keys))]
+            mb = sym('matrix_basis', iterable=[sym(f'M{i}') for i in range(8)])
+            mb.on_getitem = lambda interp, me, idx: me.iterable[idx] if isinstance(idx, int) else Rec('item', me, idx)
+            c2b = sym('canon2bin', attrs={'values': sym('values', callable_result=lambda i, m, a, k: list(canon))})
+            alg = sym('algebra', attrs={'canon2bin': c2b, 'matrix_basis': mb})
+            alg.kvc_len = lambda: 8
+            me = sym('self', attrs={'algebra': alg, 'items': sym('items', callable_result=lambda i, m, a, k: list(zip(keys, vals))),
+                                    'values': sym('values', callable_result=lambda i, m, a, k: list(vals)),
+                                    'keys': sym('keys', callable_result=lambda i, m, a, k: tuple(keys))})
+            me.kvc_len = lambda: len(keys)
+            r = H.closure(Interp(ctx, source_name=MV), fuc)(me)
+            # expected: the multiset of terms {(coefficient i, basis matrix at the canonical position of key i)}
+            terms = []
 
-    def body(ctx):
-        canon = [0, 1, 2, 4, 3, 5, 6, 7]           # canonical key order of a 3-generator default basis (grade, then name)
-        keys = [6, 0, 4]
-        vals = [sym(f'v{i}') for i in range(3)]
-        mb = sym('matrix_basis')
-        c2b = sym('canon2bin', attrs={'values': sym('values', callable_result=lambda i, m, a, k: list(canon))})
-        alg = sym('algebra', attrs={'canon2bin': c2b, 'matrix_basis': mb})
-        me = sym('self', attrs={'algebra': alg, 'items': sym('items', callable_result=lambda i, m, a, k: list(zip(keys, vals)))})
-        r = H.closure(Interp(ctx, source_name=MV), fuc)(me)
-        term = lambda k, v: Rec('binop', 'Mult', v, Rec('item', mb, canon.index(k)))
-        exp = 0
-        for k, v in zip(keys, vals):
-            exp = Rec('binop', 'Add', exp, term(k, v))
-        ctx.oblige('asmatrix: sum of coefficient * basis matrix at the canonical position of its blade', same(r, exp),
-                   meta={'got': repr(r), 'expected': repr(exp)})
-        return r
-    H.run_paths(fuc, 'd=3,keys=(6,0,4)', body)
+            def flat(x):
+                if isinstance(x, Rec) and x.kind == 'binop' and x.parts[0] == 'Add':
+                    flat(x.parts[1]); flat(x.parts[2])
+                elif isinstance(x, int) and x == 0:
+                    pass
+                else:
+                    terms.append(x)
+            flat(r)
+            got = []
+            ok = True
+            for t in terms:
+                if isinstance(t, Rec) and t.kind == 'binop' and t.parts[0] == 'Mult':
+                    got.append((repr(t.parts[1]), repr(t.parts[2])))
+                else:
+                    ok = False
+            exp = sorted((repr(v), repr(mb.iterable[canon.index(k)])) for k, v in zip(keys, vals))
+            ctx.oblige('asmatrix: sum over the stored blades of coefficient * basis matrix at the canonical position of that blade',
+                       ok and sorted(got) == exp, meta={'got': sorted(got), 'expected': exp})
+            return r
+        H.run_paths(fuc, f'd=3,keys={tuple(keys)}', body)
     f2 = H.fn(MV, 'MultiVector.frommatrix')
 
     def body2(ctx):
